@@ -271,6 +271,43 @@ def somigliana(chk, prog):
     chk.record("HEIGHT.monotone", fn.ref, "d(factor)/dh <= (%s)/a < 0 on f <= 0.2, m >= 0, h <= 0.005a" % upper, verdict="HOLDS" if upper < 0 else "VIOLATION")
 
 
+DECIDED_MEMBERS = {"normal_gravity", "equatorial_normal_gravity", "polar_normal_gravity", "normal_gravity_constant", "first_eccentricity_squared",
+                   "second_eccentricity_squared", "linear_eccentricity", "aspect_ratio", "mean_normal_gravity", "b", "a", "f", "gm", "w"}
+
+
+def inherit_rule(chk, prog):
+    """INHERIT: the identities above are decided on ReferenceEllipsoid's own members.  They carry over to a subclass (WGS) only for members it does not
+    override.  An override whose result does not depend on the instance at all on some path (a module constant, a cached number) is a finding: the
+    property quantifies over every ellipsoid, and a tolerance test (`is_geodetic` is isclose-based) lets neighbouring ellipsoids reach that path.  Any other
+    override of a decided member gets no verdict (the closed forms were not re-derived for it)."""
+    base = prog.cls(GEO + "::ReferenceEllipsoid")
+    decided = {n for n in DECIDED_MEMBERS if n in base.methods or n in base.setters}
+    n = 0
+    for m in prog.modules.values():
+        for c in m.classes.values():
+            if c is base or "ReferenceEllipsoid" not in c.base_names:
+                continue
+            n += 1
+            over = sorted(set(c.methods) & decided)
+            for name in over:
+                g = c.methods[name]
+                const_rets = [r for r in ast.walk(g.node) if isinstance(r, ast.Return) and r.value is not None
+                              and not any(isinstance(x, ast.Name) and x.id in ("self", "super") for x in ast.walk(r.value))]
+                if const_rets:
+                    r = const_rets[0]
+                    chk.finding("INHERIT", m.rel, g.qname, "%s.%s returns `%s`, independent of the instance" % (c.name, name, ast.unparse(r.value)[:50]),
+                                "the override returns a value that does not depend on the ellipsoid's own parameters on the path guarded by `%s`: every ellipsoid reaching it "
+                                "(a tolerance test lets near-by parameter sets through) gets the same number, so Pizzetti / Somigliana no longer hold for it"
+                                % (ast.unparse(next((i.test for i in ast.walk(g.node) if isinstance(i, ast.If) and r in i.body), ast.Constant(True)))[:50]), line=r.lineno)
+                    chk.record("INHERIT", g.ref, "a decided member is inherited or re-derived", verdict="VIOLATION")
+                else:
+                    chk.error("INHERIT: %s overrides the decided member %s of ReferenceEllipsoid; the identities were not re-derived for the override (cannot decide)" % (c.name, name))
+            if not over:
+                chk.record("INHERIT", "%s::%s" % (m.rel, c.name), "subclass of ReferenceEllipsoid overrides none of the decided members (%d checked)" % len(decided))
+    if n == 0:
+        chk.error("INHERIT: no subclass of ReferenceEllipsoid found (WGS vanished)")
+
+
 def shared(chk, prog):
     from props.c19 import shared_state
     shared_state(chk, prog, Alias(prog), modules={GEO, "ahrs/utils/wgs84.py"})
@@ -287,6 +324,19 @@ def canaries(chk, prog):
                         r.value.right = ast.parse("self.a*self.b").body[0].value
                         return True
         return False
+    def cached_override(tree):
+        for n in ast.walk(tree):
+            if isinstance(n, ast.ClassDef) and n.name == "WGS":
+                n.body.append(ast.parse("@property\ndef polar_normal_gravity(self):\n    if self.is_geodetic:\n        return 9.8321849379\n    return super().polar_normal_gravity").body[0])
+                return True
+        return False
+    try:
+        p3 = prog.mutated("ahrs/utils/wgs84.py", cached_override)
+        sub = Check("C16", chk.tier, p3, quiet=True)
+        inherit_rule(sub, p3)
+        chk.canary("WGS overrides polar_normal_gravity with a stored number", any(f.rule == "INHERIT" for f in sub.findings), "%d findings" % len(sub.findings))
+    except Exception as e:
+        chk.canary("WGS overrides polar_normal_gravity with a stored number", False, "crashed: %s: %s" % (type(e).__name__, e))
     try:
         p2 = prog.mutated(GEO, wrong_den)
         sub = Check("C16", chk.tier, p2, quiet=True)
@@ -304,6 +354,8 @@ def run(chk, prog, tier):
     somigliana(chk, prog)
     limit_arm(chk, prog)
     shared(chk, prog)
+    inherit_rule(chk, prog)
+    chk.require_count("INHERIT", 1)
     chk.require_count("PIZZETTI", 3)
     chk.require_count("DERIVED", 4)
     canaries(chk, prog)
